@@ -950,7 +950,10 @@ def correspondence(ctx, impl=None):
                 "pool_scope subset, one <op>_location list, one placement of the state among cache and sources and one "
                 "cache-validity outcome; the same case through drv_pool; compared: result/error class and the ordered "
                 "contact list; non-trivial = at least one listed source is permitted (root: pool_scope other than 'own'); "
-                "distinct by content hash")
+                "distinct by content hash; PLUS the end-to-end stream: random sequences of show/get/set/unset on the real stack "
+                "SourcedStateBackend -> QCOW2ImageTransfer -> TransferOps -> image_lock over real directories (4 local pools with "
+                "state files, lock files, junk; image and vm states), the model fed with the observed raw listings, contacts "
+                "checked against the changes on disk")
     try:
         impl = impl or Impl()
         corpus = os.path.join(vlib.VERIF, "corpus", "C13")
@@ -984,6 +987,9 @@ def correspondence(ctx, impl=None):
         _run_stream(ctx, (random_state_case(rng) for _ in range(n_rand)), impl)
         _run_stream(ctx, (malformed_state_case(rng) for _ in range(n_mal)), impl)
         _run_stream(ctx, (odd_scope_case(rng) for _ in range(n_mal)), impl)
+        # end to end: the real stack down to the files and lock files of real directories (harness/poolint.py)
+        import poolint
+        poolint.run(ctx, 3000 if thorough else 400)
         # run.py searches only when no violation at all was seen; a listed (known) finding must not mask a new break
         if (ctx.disagreements or ctx.proof_problems) and ctx.violations and not _new_violations(ctx):
             search(ctx, "proof" if ctx.proof_problems else "correspondence", impl)
@@ -1042,6 +1048,10 @@ def shrink_case(c, key, impl):
 
 def replay(ctx, payload, impl=None):
     try:
+        if payload["case"].get("kind") == "e2e":
+            import poolint
+            poolint.run(ctx, 0, specs=[payload["case"]])
+            return
         run_cases(ctx, [payload["case"]], impl or Impl())
     finally:
         _cleanup()
